@@ -1,5 +1,5 @@
 # replay of a bounded stand-in violation: re-run native/c01_backends.py
 import sys
-print('fock lossChannel(T=0.9, cutoff=8) on |7>: photon distribution [0.0, 1e-05, 0.00017, 0.00255, 0.02296, 0.124, 0.37201, 0.4783], binomial law [0.0, 1e-05, 0.00017, 0.00255, 0.02296, 0.124, 0.37201, 0.4783]')
+print('MeasureHeterodyne(0.2, -0.3) | q[1] of 3 on gaussian: Gaussian state violates the uncertainty relation (min eigenvalue of V + i hbar/2 Omega = -0.00272)')
 print('REPLAY-VIOLATION')
 sys.exit(1)
